@@ -1,8 +1,11 @@
 (* Model/Pool.v — C14: worker pools of the process-based runners (definitions only).
 
    A pool is the parent's tracking dictionary (runner id -> process handle, insertion ordered,
-   `child_runner_ids` in all three runners), the id counter standing for the fresh uuid4 ids, and
-   the number of invocations waiting in the broker.  Worker ids are the spawn serial numbers.
+   `child_runner_ids` in all three runners), the id counter standing for the fresh uuid4 ids, the
+   number of invocations waiting in the broker, and the runner ids of the workers forgotten so far
+   (most recent first).  A worker id is a RUNNER ID (numbered by first appearance), not a process:
+   where the ids of new workers come from (`idsrc`: a fresh uuid4 for every spawn, or an id taken
+   back from a forgotten worker) is a fact generated from the spawn code of each runner.
 
    The body of each runner's `runner_loop_iteration` is a list of pool operations (`lop`) that
    harness/translate/pool_loops.py regenerates from the source into gen/Pool_gen.v; the meaning
@@ -12,7 +15,12 @@ From Coq Require Import List Arith Bool.
 Import ListNotations.
 
 Record worker := mkW { wid : nat; walive : bool }.
-Record pool := mkP { tracked : list worker; next : nat; queue : nat }.
+Record pool := mkP { tracked : list worker; next : nat; queue : nat; freed : list nat }.
+
+(* where the runner id of a newly spawned worker comes from *)
+Inductive idsrc :=
+| IdFresh      (* str(uuid.uuid4()) / new_child_context() without an id: never seen before   *)
+| IdRecycled.  (* may be the id of a worker forgotten earlier (last forgotten first)           *)
 
 (* resolved configuration: cap = configured number of workers, initial = spawned by _on_start *)
 Record cfg := mkC { cap : nat; initial : nat; enforce : bool }.
@@ -58,11 +66,12 @@ Definition ids (l : list worker) : list nat := map wid l.
 Definition no_dead (p : pool) : bool := forallb walive (tracked p).
 
 Definition spawn1 (p : pool) : pool :=
-  mkP (tracked p ++ [mkW (next p) true]) (S (next p)) (queue p).
+  mkP (tracked p ++ [mkW (next p) true]) (S (next p)) (queue p) (freed p).
 Fixpoint spawn_n (n : nat) (p : pool) : pool :=
   match n with 0 => p | S m => spawn_n m (spawn1 p) end.
 
-Definition prune (p : pool) : pool := mkP (live p) (next p) (queue p).
+Definition dead_of (p : pool) : list worker := filter (fun w => negb (walive w)) (tracked p).
+Definition prune (p : pool) : pool := mkP (live p) (next p) (queue p) (rev (ids (dead_of p)) ++ freed p).
 
 Definition spawn_to (c : cfg) (p : pool) : pool := spawn_n (cap c - ntracked p) p.
 
@@ -76,7 +85,7 @@ Definition scale_up (c : cfg) (p : pool) : pool :=
 Definition spawn_from_queue (c : cfg) (p : pool) : pool :=
   let k := Nat.min (cap c - ntracked p) (queue p) in
   let p' := spawn_n k p in
-  mkP (tracked p') (next p') (queue p - k).
+  mkP (tracked p') (next p') (queue p - k) (freed p').
 
 Definition do_op (c : cfg) (p : pool) (o : lop) : pool :=
   match o with
@@ -95,7 +104,7 @@ Fixpoint iterate (k : nat) (f : pool -> pool) (p : pool) : pool :=
 (* ---- what happens between iterations ---- *)
 Definition kill (dead : list nat) (p : pool) : pool :=
   mkP (map (fun w => if existsb (Nat.eqb (wid w)) dead then mkW (wid w) false else w) (tracked p))
-      (next p) (queue p).
+      (next p) (queue p) (freed p).
 
 Definition hb_pick (sel : hbsel) (w : worker) : bool :=
   match sel with HbAlive => walive w | HbAll => true | HbDead => negb (walive w) end.
@@ -112,8 +121,8 @@ Inductive event :=
 Definition apply_ev (c : cfg) (ops : list lop) (p : pool) (e : event) : pool :=
   match e with
   | EKill d => kill d p
-  | EEnqueue n => mkP (tracked p) (next p) (queue p + n)
-  | EDrain => mkP (tracked p) (next p) 0
+  | EEnqueue n => mkP (tracked p) (next p) (queue p + n) (freed p)
+  | EDrain => mkP (tracked p) (next p) 0 (freed p)
   | EIter => iter c ops p
   | EBeat => p
   end.
@@ -121,7 +130,7 @@ Definition apply_ev (c : cfg) (ops : list lop) (p : pool) (e : event) : pool :=
 Definition run (c : cfg) (ops : list lop) (p : pool) (evs : list event) : pool :=
   fold_left (apply_ev c ops) evs p.
 
-Definition start (c : cfg) : pool := spawn_n (initial c) (mkP [] 0 0).
+Definition start (c : cfg) : pool := spawn_n (initial c) (mkP [] 0 0 []).
 
 (* heartbeat outputs along a run, in order *)
 Fixpoint beats (c : cfg) (ops : list lop) (sel : hbsel) (p : pool) (evs : list event) : list (list nat) :=
@@ -152,3 +161,71 @@ Fixpoint trace (c : cfg) (ops : list lop) (sel : hbsel) (p : pool) (evs : list e
 (* what the pool has to offer after an iteration of the multi-thread runner *)
 Definition mtr_demand (c : cfg) (p : pool) : nat :=
   if enforce c then cap c else Nat.min (queue p) (cap c).
+
+(* ---- the same loop with the id source of the spawn code made explicit ----
+   `spawn1G IdFresh` is `spawn1`; with `IdRecycled` a new worker takes the id of the most recently
+   forgotten worker when there is one.  Everything below repeats the definitions above with the
+   id source threaded through (Proofs/PoolProofs.v: for IdFresh the two coincide).  The theorems of
+   Props/C14.v and the differential run use THESE, instantiated with the `*_id_src` facts generated
+   from the spawn code of each runner. *)
+Definition spawn1G (s : idsrc) (p : pool) : pool :=
+  match s, freed p with
+  | IdRecycled, id :: rest => mkP (tracked p ++ [mkW id true]) (next p) (queue p) rest
+  | _, _ => spawn1 p
+  end.
+Fixpoint spawn_nG (s : idsrc) (n : nat) (p : pool) : pool :=
+  match n with 0 => p | S m => spawn_nG s m (spawn1G s p) end.
+
+Definition spawn_toG (s : idsrc) (c : cfg) (p : pool) : pool := spawn_nG s (cap c - ntracked p) p.
+
+Definition scale_upG (s : idsrc) (c : cfg) (p : pool) : pool :=
+  let cur := ntracked p in
+  if enforce c then spawn_nG s (cap c - cur) p
+  else if (cur <? queue p) && (cur <? cap c)
+       then spawn_nG s (Nat.min (queue p - cur) (cap c - cur)) p
+       else p.
+
+Definition spawn_from_queueG (s : idsrc) (c : cfg) (p : pool) : pool :=
+  let k := Nat.min (cap c - ntracked p) (queue p) in
+  let p' := spawn_nG s k p in
+  mkP (tracked p') (next p') (queue p - k) (freed p').
+
+Definition do_opG (s : idsrc) (c : cfg) (p : pool) (o : lop) : pool :=
+  match o with
+  | LPrune => prune p
+  | LSpawnTo => spawn_toG s c p
+  | LScaleUp => scale_upG s c p
+  | LSpawnFromQueue => spawn_from_queueG s c p
+  end.
+
+Definition iterG (s : idsrc) (c : cfg) (ops : list lop) (p : pool) : pool := fold_left (do_opG s c) ops p.
+
+Definition apply_evG (s : idsrc) (c : cfg) (ops : list lop) (p : pool) (e : event) : pool :=
+  match e with
+  | EIter => iterG s c ops p
+  | _ => apply_ev c ops p e
+  end.
+
+Definition runG (s : idsrc) (c : cfg) (ops : list lop) (p : pool) (evs : list event) : pool :=
+  fold_left (apply_evG s c ops) evs p.
+
+Fixpoint beatsG (s : idsrc) (c : cfg) (ops : list lop) (sel : hbsel) (p : pool) (evs : list event)
+  : list (list nat) :=
+  match evs with
+  | [] => []
+  | e :: r =>
+      let p' := apply_evG s c ops p e in
+      match e with
+      | EBeat => hb sel p :: beatsG s c ops sel p' r
+      | _ => beatsG s c ops sel p' r
+      end
+  end.
+
+Fixpoint traceG (s : idsrc) (c : cfg) (ops : list lop) (sel : hbsel) (p : pool) (evs : list event)
+  : list (list (list nat) * nat * list nat) :=
+  match evs with
+  | [] => []
+  | e :: r =>
+      let p' := apply_evG s c ops p e in
+      (obs_pool p', queue p', match e with EBeat => hb sel p | _ => [] end) :: traceG s c ops sel p' r
+  end.
